@@ -1,4 +1,4 @@
 From Coq Require Import Extraction ExtrOcamlBasic.
-From Cicada Require Import Base.Chars Gen.CalcTables Model.Calc Model.CalcPeg.
+From Cicada Require Import Base.Chars Gen.CalcTables Model.Calc Model.CalcPeg Model.CalcFloat.
 Extraction Language OCaml.
-Extraction "c19_model.ml" is_arithmetic parse_line_arith parse_calc pratt_tree run_calculator try_run_calculator peg_pairs.
+Extraction "c19_model.ml" is_arithmetic parse_line_arith parse_calc pratt_tree run_calculator try_run_calculator peg_pairs run_calculator_f f64_syntax.
